@@ -244,6 +244,54 @@ def qmdp(sx, shape, h):
             sx.prove(set(d) == {AL[a] for a in G}, f'qmdp-action-dist-support-is-the-maximisers[belief {bi}]')
 
 
+def reuse_planner(sx, first, second, order):
+    """one PBVI planner object (automatic horizon) used on two POMDPs in a row: for EVERY belief (symbolic point of the simplex) the PBVI value of the
+    second plan does not exceed the QMDP value by more than the slack implied by its threshold"""
+    from msdm.algorithms.pointbasedvalueiteration import PointBasedValueIteration
+    from msdm.algorithms.qmdp import QMDP
+    from msdm.algorithms.policyiteration import PolicyIteration
+    from msdm.core.pomdp.tabularpomdp import Belief
+    from harness.common import simplex
+    shA = PSH[first].with_(gamma=F(1, 2))
+    shB = PSH[second].with_(gamma=F(19, 20))
+    if order == 1:
+        shA, shB = shB.with_(gamma=F(1, 2)), shA.with_(gamma=F(19, 20))
+    eps = 0.1
+    menu = [-1.0, -0.25, -0.5, -0.75, -0.125, -1.0, -0.375, -0.625]
+
+    def mk(sh):
+        rew, k = {}, 0
+        for s in range(sh.S):
+            for a in sh.avail[s]:
+                for ns in sh.rows[(s, a)]:
+                    rew[(s, a, ns)] = menu[(2 * s + a) % len(menu)]
+        return build_pomdp(_FloatConst(sx), sh, rew)
+    b = simplex(sx, [f"b{s}" for s in range(shB.S)])
+    with facade(sx):
+        planner = PointBasedValueIteration(min_belief_expansions=0, max_belief_expansions=1, value_convergence_epsilon=eps, horizon=None)
+        pA, pB = mk(shA), mk(shB)
+        with sx.must_not_raise('plan-twice'):
+            planner.plan_on(pA)
+            resB = planner.plan_on(pB)
+            q = QMDP(mdp_solver=PolicyIteration(max_iterations=50)).plan_on(pB)
+        sl = list(pB.state_list)
+        L = shB.slabels
+        bel = Belief(tuple(sl), tuple(b[L.index(s_)] for s_ in sl))
+        vp = resB.policy.value(bel)
+        vq = q.policy.value(bel)
+        slack = eps / (1 - float(shB.gamma)) + 1e-6
+        sx.prove_le(vp, vq + slack, 'second-plan-pbvi-value-within-slack-of-qmdp-for-every-belief')
+
+
+class _FloatConst:
+    """build_pomdp with float constants in both modes (this harness keeps everything but the belief concrete)"""
+    def __init__(self, sx):
+        self.mode = sx.mode
+
+    def const(self, x):
+        return float(x)
+
+
 def jobs(tier):
     quick = tier == 'quick'
     o = dict(timeout_ms=60000, budget_s=1500, max_paths=20000)
@@ -261,3 +309,6 @@ def jobs(tier):
                 continue
             yield ('plan', dict(shape=i, h=h, nexp=nexp), dict(o, cost=20))
         yield ('qmdp', dict(shape=i, h=2), dict(o, cost=10))
+    for first, second in [(0, 0), (2, 2), (3, 3)]:
+        for order in (0, 1):
+            yield ('reuse_planner', dict(first=first, second=second, order=order), o)
